@@ -148,10 +148,14 @@ pub fn run() {
                         [id, "G", ts @ ..] => {
                             let id: usize = id.parse().unwrap();
                             let mut src = String::new();
-                            for t in ts {
+                            for (j, t) in ts.iter().enumerate() {
                                 let mut it = t.split(':');
                                 let tn: usize = it.next().unwrap().parse().unwrap();
                                 let k: usize = it.next().map(|s| s.parse().unwrap()).unwrap_or(0);
+                                // imports need not come first: a declaration may stand between (or before) them
+                                if (id + j) % 3 == 1 {
+                                    src.push_str(&format!("let d{} = num;\n", j));
+                                }
                                 src.push_str(&format!("use \"{}\";\n", spelling(id, tn, k)));
                             }
                             rec.files.insert(loc_of(id), (id, File::Good(src)));
